@@ -360,7 +360,8 @@ Section Proofs.
     unfold observe_optic. destruct (optic_budget_check q); [discriminate|].
     destruct (optic_attachment_check q); [discriminate|].
     destruct (optic_to_request q) as [k|r] eqn:T; [discriminate|].
-    destruct (observe W r) eqn:O; try discriminate. intros E. injection E as <-.
+    destruct (observe W r) eqn:O; try discriminate.
+    destruct (live_tail_check _ _ _); [discriminate|]. intros E. injection E as <-.
     exists r. split; [reflexivity|]. split; [exact O|].
     unfold optic_to_request in T. destruct (o_focus q); try discriminate. destruct (o_coord q) as [cid ca|]; try discriminate.
     destruct (negb _); [discriminate|].
